@@ -47,6 +47,93 @@ package keeper
 //@ spec depOf(val: map[str]str, id: types.DeploymentID): types.Deployment = decode(types.Deployment, val[deploymentKeyOf(id)])
 //@ spec grpOf(val: map[str]str, id: types.GroupID): types.Group = decode(types.Group, val[groupKeyOf(id)])
 
+// ---- store well-formedness: every record is stored under the key of its own id ----
+//@ lemma depKeyPrefix(d: types.DeploymentID)
+//@   theory strings
+//@   ensures hasPrefix(deploymentKeyOf(d), "\x01") && !hasPrefix(deploymentKeyOf(d), "\x02")
+//@   trigger deploymentKeyOf(d)
+//@ lemma grpKeyPrefix(g: types.GroupID)
+//@   theory strings
+//@   ensures hasPrefix(groupKeyOf(g), "\x02") && !hasPrefix(groupKeyOf(g), "\x01")
+//@   trigger groupKeyOf(g)
+//@ lemma grpsKeyPrefix(d: types.DeploymentID, key: str)
+//@   theory strings
+//@   requires hasPrefix(key, groupsKeyOf(d))
+//@   ensures hasPrefix(key, "\x02")
+//@   trigger hasPrefix(key, groupsKeyOf(d))
+//@ spec opaque depWF(has: map[str]bool, val: map[str]str): bool =
+//@     (forall key: str :: has[key] && hasPrefix(key, "\x01") ==> deploymentKeyOf(decode(types.Deployment, val[key]).DeploymentID) == key)
+//@     && (forall key: str :: has[key] && hasPrefix(key, "\x02") ==> groupKeyOf(decode(types.Group, val[key]).GroupID) == key)
+//@ lemma depWFSetDeployment(has: map[str]bool, val: map[str]str, rec: types.Deployment)
+//@   requires depWF(has, val)
+//@   ensures depWF(has[deploymentKeyOf(rec.DeploymentID) := true], val[deploymentKeyOf(rec.DeploymentID) := encode(rec)])
+//@   trigger depWF(has, val), val[deploymentKeyOf(rec.DeploymentID) := encode(rec)]
+//@ lemma depWFSetGroup(has: map[str]bool, val: map[str]str, rec: types.Group)
+//@   requires depWF(has, val)
+//@   ensures depWF(has[groupKeyOf(rec.GroupID) := true], val[groupKeyOf(rec.GroupID) := encode(rec)])
+//@   trigger depWF(has, val), val[groupKeyOf(rec.GroupID) := encode(rec)]
+//@ lemma depWFGet(has: map[str]bool, val: map[str]str, d: types.DeploymentID)
+//@   requires depWF(has, val) && has[deploymentKeyOf(d)]
+//@   ensures deploymentKeyOf(depOf(val, d).DeploymentID) == deploymentKeyOf(d)
+//@   trigger depWF(has, val), depOf(val, d)
+//@ lemma depWFGetGroup(has: map[str]bool, val: map[str]str, g: types.GroupID)
+//@   requires depWF(has, val) && has[groupKeyOf(g)]
+//@   ensures groupKeyOf(grpOf(val, g).GroupID) == groupKeyOf(g)
+//@   trigger depWF(has, val), grpOf(val, g)
+//@ lemma depWFEnumGroup(has: map[str]bool, val: map[str]str, d: types.DeploymentID, j: int)
+//@   requires depWF(has, val) && 0 <= j && j < enumLen(has, groupsKeyOf(d))
+//@   ensures groupKeyOf(decode(types.Group, val[enumKey(has, groupsKeyOf(d), j)]).GroupID) == enumKey(has, groupsKeyOf(d), j) && has[enumKey(has, groupsKeyOf(d), j)]
+//@   trigger depWF(has, val), enumKey(has, groupsKeyOf(d), j)
+
+// the deployment store under the marketplace hooks: nothing is removed, records stay under their own keys, a closed
+// deployment stays closed, and a group that is dead (closed or out of funds) or not open stays so
+//@ spec groupDead(s: types.Group_State): bool = s == types.GroupClosed || s == types.GroupInsufficientFunds
+//@ spec abstract depKeeps(h0: map[str]bool, v0: map[str]str, h1: map[str]bool, v1: map[str]str): bool =
+//@     (forall key: str :: h0[key] ==> h1[key]) && (depWF(h0, v0) ==> depWF(h1, v1))
+//@     && (forall d: types.DeploymentID :: depOf(v0, d).State == types.DeploymentClosed ==> depOf(v1, d).State == types.DeploymentClosed)
+//@     && (forall g: types.GroupID :: grpOf(v0, g).State != types.GroupOpen ==> grpOf(v1, g).State != types.GroupOpen)
+//@     && (forall g: types.GroupID :: groupDead(grpOf(v0, g).State) ==> groupDead(grpOf(v1, g).State))
+//@ lemma depKeepsRefl(h: map[str]bool, v: map[str]str)
+//@   uses def:depKeeps
+//@   ensures depKeeps(h, v, h, v)
+//@   trigger depKeeps(h, v, h, v)
+//@ lemma depKeepsTrans(h0: map[str]bool, v0: map[str]str, h1: map[str]bool, v1: map[str]str, h2: map[str]bool, v2: map[str]str)
+//@   uses def:depKeeps
+//@   requires depKeeps(h0, v0, h1, v1) && depKeeps(h1, v1, h2, v2)
+//@   ensures depKeeps(h0, v0, h2, v2)
+//@   trigger depKeeps(h0, v0, h1, v1), depKeeps(h1, v1, h2, v2)
+//@ lemma depKeepsHas(h0: map[str]bool, v0: map[str]str, h1: map[str]bool, v1: map[str]str, key: str)
+//@   uses def:depKeeps
+//@   requires depKeeps(h0, v0, h1, v1) && h0[key]
+//@   ensures h1[key]
+//@   trigger depKeeps(h0, v0, h1, v1), h1[key]
+//@ lemma depKeepsWF(h0: map[str]bool, v0: map[str]str, h1: map[str]bool, v1: map[str]str)
+//@   uses def:depKeeps
+//@   requires depKeeps(h0, v0, h1, v1) && depWF(h0, v0)
+//@   ensures depWF(h1, v1)
+//@   trigger depKeeps(h0, v0, h1, v1)
+//@ lemma depKeepsClosedDep(h0: map[str]bool, v0: map[str]str, h1: map[str]bool, v1: map[str]str, d: types.DeploymentID)
+//@   uses def:depKeeps
+//@   requires depKeeps(h0, v0, h1, v1) && depOf(v0, d).State == types.DeploymentClosed
+//@   ensures depOf(v1, d).State == types.DeploymentClosed
+//@   trigger depKeeps(h0, v0, h1, v1), depOf(v1, d)
+//@ lemma depKeepsDead(h0: map[str]bool, v0: map[str]str, h1: map[str]bool, v1: map[str]str, g: types.GroupID)
+//@   uses def:depKeeps
+//@   requires depKeeps(h0, v0, h1, v1)
+//@   ensures (groupDead(grpOf(v0, g).State) ==> groupDead(grpOf(v1, g).State)) && (grpOf(v0, g).State != types.GroupOpen ==> grpOf(v1, g).State != types.GroupOpen)
+//@   trigger depKeeps(h0, v0, h1, v1), grpOf(v1, g)
+// closing steps are of this kind
+//@ lemma depKeepsCloseGroup(h: map[str]bool, v: map[str]str, rec: types.Group)
+//@   uses def:depKeeps
+//@   requires groupDead(rec.State) && h[groupKeyOf(rec.GroupID)]
+//@   ensures depKeeps(h, v, h, v[groupKeyOf(rec.GroupID) := encode(rec)])
+//@   trigger v[groupKeyOf(rec.GroupID) := encode(rec)], h[groupKeyOf(rec.GroupID)]
+//@ lemma depKeepsCloseDeployment(h: map[str]bool, v: map[str]str, rec: types.Deployment)
+//@   uses def:depKeeps
+//@   requires rec.State == types.DeploymentClosed && h[deploymentKeyOf(rec.DeploymentID)]
+//@   ensures depKeeps(h, v, h, v[deploymentKeyOf(rec.DeploymentID) := encode(rec)])
+//@   trigger v[deploymentKeyOf(rec.DeploymentID) := encode(rec)], h[deploymentKeyOf(rec.DeploymentID)]
+
 //@ func (Keeper).GetDeployment
 //@   ensures result1 <==> KVhas[k.skey][deploymentKeyOf(id)]
 //@   ensures result1 ==> result0 == depOf(KVval[k.skey], id)
@@ -62,14 +149,39 @@ package keeper
 //@   loop 1 invariant forall j: int :: 0 <= j && j < len(vals) ==> vals[j] == decode(types.Group, KVval[k.skey][enumKey(KVhas[k.skey], groupsKeyOf(id), j)])
 //@   loop 1 invariant cap(vals) > 0 ==> fresh(vals) && freshloop(vals)
 
+// creation stores the deployment and every group under their own keys and announces the deployment; a group that
+// does not belong to the deployment is refused
+//@ func (Keeper).Create
+//@   modifies ghost KVhas, ghost KVval, ghost G, ghost EvN, ghost EvLog
+//@   uses depWFSetDeployment, depWFSetGroup, dkindsDisjoint
+//@   ensures [exists] old(KVhas)[k.skey][deploymentKeyOf(deployment.DeploymentID)] ==> result != nil && KVhas == old(KVhas) && KVval == old(KVval) && EvN == old(EvN)
+//@   ensures [wf] depWF(old(KVhas)[k.skey], old(KVval)[k.skey]) ==> depWF(KVhas[k.skey], KVval[k.skey])
+//@   ensures [others] forall sk: iface {KVval[sk]} :: sk != k.skey ==> KVhas[sk] == old(KVhas)[sk] && KVval[sk] == old(KVval)[sk]
+//@   ensures [created] result == nil ==> !old(KVhas)[k.skey][deploymentKeyOf(deployment.DeploymentID)] && KVhas[k.skey][deploymentKeyOf(deployment.DeploymentID)]
+//@        && depOf(KVval[k.skey], deployment.DeploymentID) == deployment
+//@        && (forall j: int :: 0 <= j && j < len(groups) ==> KVhas[k.skey][groupKeyOf(groups[j].GroupID)]
+//@               && groups[j].GroupID.Owner == deployment.DeploymentID.Owner && groups[j].GroupID.DSeq == deployment.DeploymentID.DSeq)
+//@        && EvN == old(EvN) + 1 && EvLog == old(EvLog)[old(EvN) := sigDeployment(1, deployment.DeploymentID)]
+//@   ensures [nokill] forall key: str :: old(KVhas)[k.skey][key] ==> KVhas[k.skey][key]
+//@   loop 1 invariant 0 <= iter && iter <= len(groups) && EvN == old(EvN) && EvLog == old(EvLog)
+//@   loop 1 invariant forall sk: iface {KVval[sk]} :: sk != k.skey ==> KVhas[sk] == old(KVhas)[sk] && KVval[sk] == old(KVval)[sk]
+//@   loop 1 invariant depWF(old(KVhas)[k.skey], old(KVval)[k.skey]) ==> depWF(KVhas[k.skey], KVval[k.skey])
+//@   loop 1 invariant forall key: str :: old(KVhas)[k.skey][key] ==> KVhas[k.skey][key]
+//@   loop 1 invariant KVhas[k.skey][deploymentKeyOf(deployment.DeploymentID)] && depOf(KVval[k.skey], deployment.DeploymentID) == deployment
+//@   loop 1 invariant forall j: int :: 0 <= j && j < iter ==> KVhas[k.skey][groupKeyOf(groups[j].GroupID)]
+//@               && groups[j].GroupID.Owner == deployment.DeploymentID.Owner && groups[j].GroupID.DSeq == deployment.DeploymentID.DSeq
 //@ func (Keeper).UpdateDeployment
 //@   modifies ghost KVhas, ghost KVval, ghost G, ghost EvN, ghost EvLog
+//@   uses depWFSetDeployment, depWFSetGroup
+//@   ensures [wf] depWF(old(KVhas)[k.skey], old(KVval)[k.skey]) ==> depWF(KVhas[k.skey], KVval[k.skey])
 //@   ensures [missing] !old(KVhas)[k.skey][deploymentKeyOf(deployment.DeploymentID)] ==> result != nil && KVhas == old(KVhas) && KVval == old(KVval) && EvN == old(EvN)
 //@   ensures [updated] old(KVhas)[k.skey][deploymentKeyOf(deployment.DeploymentID)] ==> result == nil && KVhas == old(KVhas)
 //@                && KVval == old(KVval)[k.skey := old(KVval)[k.skey][deploymentKeyOf(deployment.DeploymentID) := encode(deployment)]]
 //@                && EvN == old(EvN) + 1 && EvLog == old(EvLog)[old(EvN) := sigDeployment(2, deployment.DeploymentID)]
 //@ func (Keeper).CloseDeployment
 //@   modifies ghost KVhas, ghost KVval, ghost G, ghost EvN, ghost EvLog
+//@   uses depWFSetDeployment, depWFSetGroup
+//@   ensures [wf] depWF(old(KVhas)[k.skey], old(KVval)[k.skey]) ==> depWF(KVhas[k.skey], KVval[k.skey])
 //@   ensures [noop] deployment.State == types.DeploymentClosed || !old(KVhas)[k.skey][deploymentKeyOf(deployment.DeploymentID)] ==>
 //@                KVhas == old(KVhas) && KVval == old(KVval) && EvN == old(EvN)
 //@   ensures [closed] deployment.State != types.DeploymentClosed && old(KVhas)[k.skey][deploymentKeyOf(deployment.DeploymentID)] ==> KVhas == old(KVhas)
@@ -77,24 +189,32 @@ package keeper
 //@                && EvN == old(EvN) + 1 && EvLog == old(EvLog)[old(EvN) := sigDeployment(3, deployment.DeploymentID)]
 //@ func (Keeper).OnCloseGroup
 //@   modifies ghost KVhas, ghost KVval, ghost G, ghost EvN, ghost EvLog
+//@   uses depWFSetDeployment, depWFSetGroup
+//@   ensures [wf] depWF(old(KVhas)[k.skey], old(KVval)[k.skey]) ==> depWF(KVhas[k.skey], KVval[k.skey])
 //@   ensures [missing] !old(KVhas)[k.skey][groupKeyOf(group.GroupID)] ==> result != nil && KVhas == old(KVhas) && KVval == old(KVval) && EvN == old(EvN)
 //@   ensures [closed] old(KVhas)[k.skey][groupKeyOf(group.GroupID)] ==> result == nil && KVhas == old(KVhas)
 //@                && KVval == old(KVval)[k.skey := old(KVval)[k.skey][groupKeyOf(group.GroupID) := encode(upd(group, State, state))]]
 //@                && EvN == old(EvN) + 1 && EvLog == old(EvLog)[old(EvN) := sigGroup(1, group.GroupID)]
 //@ func (Keeper).OnPauseGroup
 //@   modifies ghost KVhas, ghost KVval, ghost G, ghost EvN, ghost EvLog
+//@   uses depWFSetDeployment, depWFSetGroup
+//@   ensures [wf] depWF(old(KVhas)[k.skey], old(KVval)[k.skey]) ==> depWF(KVhas[k.skey], KVval[k.skey])
 //@   ensures [missing] !old(KVhas)[k.skey][groupKeyOf(group.GroupID)] ==> result != nil && KVhas == old(KVhas) && KVval == old(KVval) && EvN == old(EvN)
 //@   ensures [paused] old(KVhas)[k.skey][groupKeyOf(group.GroupID)] ==> result == nil && KVhas == old(KVhas)
 //@                && KVval == old(KVval)[k.skey := old(KVval)[k.skey][groupKeyOf(group.GroupID) := encode(upd(group, State, types.GroupPaused))]]
 //@                && EvN == old(EvN) + 1 && EvLog == old(EvLog)[old(EvN) := sigGroup(2, group.GroupID)]
 //@ func (Keeper).OnStartGroup
 //@   modifies ghost KVhas, ghost KVval, ghost G, ghost EvN, ghost EvLog
+//@   uses depWFSetDeployment, depWFSetGroup
+//@   ensures [wf] depWF(old(KVhas)[k.skey], old(KVval)[k.skey]) ==> depWF(KVhas[k.skey], KVval[k.skey])
 //@   ensures [missing] !old(KVhas)[k.skey][groupKeyOf(group.GroupID)] ==> result != nil && KVhas == old(KVhas) && KVval == old(KVval) && EvN == old(EvN)
 //@   ensures [started] old(KVhas)[k.skey][groupKeyOf(group.GroupID)] ==> result == nil && KVhas == old(KVhas)
 //@                && KVval == old(KVval)[k.skey := old(KVval)[k.skey][groupKeyOf(group.GroupID) := encode(upd(group, State, types.GroupOpen))]]
 //@                && EvN == old(EvN) + 1 && EvLog == old(EvLog)[old(EvN) := sigGroup(3, group.GroupID)]
 //@ func (Keeper).OnBidClosed
 //@   modifies ghost KVhas, ghost KVval, ghost G, ghost EvN, ghost EvLog
+//@   uses depWFSetDeployment, depWFSetGroup
+//@   ensures [wf] depWF(old(KVhas)[k.skey], old(KVval)[k.skey]) ==> depWF(KVhas[k.skey], KVval[k.skey])
 //@   ensures [missing] !old(KVhas)[k.skey][groupKeyOf(id)] ==> result != nil && KVhas == old(KVhas) && KVval == old(KVval) && EvN == old(EvN)
 //@   ensures [paused] old(KVhas)[k.skey][groupKeyOf(id)] && grpOf(old(KVval)[k.skey], id).GroupID == id ==> result == nil && KVhas == old(KVhas)
 //@                && KVval == old(KVval)[k.skey := old(KVval)[k.skey][groupKeyOf(id) := encode(upd(grpOf(old(KVval)[k.skey], id), State, types.GroupPaused))]]
@@ -103,7 +223,8 @@ package keeper
 //@   ensures (result1 == nil) <==> KVhas[k.skey][groupKeyOf(id)]
 //@   ensures result1 == nil ==> result0 == grpOf(KVval[k.skey], id)
 
-//@ property C04 := (Keeper).GetDeployment#*, (Keeper).GetGroup#*, (Keeper).GetGroups#*, (Keeper).UpdateDeployment#*, (Keeper).CloseDeployment#*,
-//@                 (Keeper).OnCloseGroup#*, (Keeper).OnPauseGroup#*, (Keeper).OnStartGroup#*, (Keeper).OnBidClosed#*, (Keeper).OnLeaseClosed#*
+//@ property C04 := (Keeper).Create#*, (Keeper).GetDeployment#*, (Keeper).GetGroup#*, (Keeper).GetGroups#*, (Keeper).UpdateDeployment#*, (Keeper).CloseDeployment#*,
+//@                 (Keeper).OnCloseGroup#*, (Keeper).OnPauseGroup#*, (Keeper).OnStartGroup#*, (Keeper).OnBidClosed#*, (Keeper).OnLeaseClosed#*,
+//@                 lemma:depKeepsRefl, lemma:depKeepsTrans, lemma:depKeepsHas, lemma:depKeepsWF, lemma:depKeepsClosedDep, lemma:depKeepsDead, lemma:depKeepsCloseGroup, lemma:depKeepsCloseDeployment, lemma:depKeyPrefix, lemma:grpKeyPrefix, lemma:grpsKeyPrefix, lemma:depWFSetDeployment, lemma:depWFSetGroup, lemma:depWFGet, lemma:depWFGetGroup, lemma:depWFEnumGroup
 
 //@ property C06 := deploymentKey#*, groupKey#*, groupsKey#*, lemma:deploymentKeyInj, lemma:groupKeyInj, lemma:groupsExact, lemma:dkindsDisjoint
